@@ -18,12 +18,57 @@ RULES = ("R1 make_base_node accepts only ComplexGoal; R2 ComplexGoal arm: child=
          "child node created by an arm is stored in the node (child / tail_sn) before it is searched")
 TRUSTED = ["rustc nightly MIR construction"]
 
+STDOUT_FNS = {"std::io::_print", "std::io::stdout", "std::io::Stdout::write", "std::io::Write::write_all"}
 CONSTRUCTION_ONLY = {"number_facts_rules", "ss", "parent_node", "head_sn", "operator_tail", "goal", "kb"}
+
+
+def write_only_field(prog, f):
+    """Is SolutionNode.<f> never read, apart from derived impls and self-updates (`node.f += const`)?"""
+    from solver import NODE_TY
+
+    def is_f(pl):
+        pr = pl.get("p") or []
+        return bool(pr) and isinstance(pr[-1], dict) and pr[-1].get("field") == f and pr[-1].get("of") == NODE_TY
+
+    def ops_of(j, out):
+        if isinstance(j, dict):
+            if j.get("k") in ("copy", "move") and isinstance(j.get("place"), dict):
+                out.append(j)
+            for k, v in j.items():
+                if k != "place" or j.get("k") in ("ref", "rawptr", "discriminant", "len"):
+                    ops_of(v, out)
+            if j.get("k") in ("ref", "rawptr", "discriminant") and isinstance(j.get("place"), dict) and is_f(j["place"]):
+                out.append({"k": "borrow", "place": j["place"]})
+        elif isinstance(j, list):
+            for v in j:
+                ops_of(v, out)
+        return out
+    for b in prog.lib_bodies():
+        if "Clone" in b.path or "fmt" in b.path or "Debug" in b.path:
+            continue
+        for blk in b.blocks:
+            for st in blk["stmts"]:
+                if st["k"] != "assign":
+                    continue
+                rv = st["rv"]
+                for o in ops_of(rv, []):
+                    if not is_f(o["place"]):
+                        continue
+                    self_update = rv.get("k") == "binop" and rv.get("op", "").startswith(("Add", "Sub")) and rv.get("l") is o and \
+                        rv.get("r", {}).get("k") == "const"
+                    if not self_update:
+                        return False
+            t = blk["term"]
+            for o in ops_of({k: v for k, v in t.items() if k in ("args", "discr")}, []):
+                if is_f(o["place"]):
+                    return False
+    return True
 
 
 def run(ctx):
     prog = ctx.prog
     S = Solver(prog, ctx)
+    crate_fns = {b.path for b in prog.lib_bodies()}
     for nm in ("entry", "make_node", "make_base", "bip_fn", "and_fn", "or_fn", "setter"):
         if getattr(S, nm) is None:
             ctx.missing("anchors", nm)
@@ -92,7 +137,10 @@ def run(ctx):
             first = next((e for e in ev if e["k"] == "branch"), None)
             if first is not None and first["value"] is False:
                 n_c += 1
-                eff = [e for e in rc if e["callee"] not in S.flag_readers and not e["callee"].endswith("get_goal")]
+                # effectful = a call into the crate (it may search, fetch, mutate) or something written to stdout; pure std
+                # calls (formatting, environment lookups, a trace on stderr) do not change what a re-ask reports
+                eff = [e for e in rc if e["callee"] not in S.flag_readers and not e["callee"].endswith("get_goal") and
+                       (e["callee"] in crate_fns or e["callee"] in STDOUT_FNS)]
                 if eff:
                     c_ok, c_why = False, "the exhausted path calls %s" % eff[0]["callee"]
     ctx.ob("R2", "child-dropped", a_ok and n_a > 0, ctx.where(E), a_why or "child = None is the first effect after a failed stored child (%d paths)" % n_a)
@@ -157,8 +205,10 @@ def run(ctx):
                     bad = (b, s, "tail_sn is cleared")
             elif f == "child":
                 pass  # Some(new child) / None after exhaustion: R2
+            elif write_only_field(prog, f):
+                pass  # a field nothing ever reads (statistics, tracing): it cannot influence what the search does
             else:
-                bad = (b, s, "unknown field")
+                bad = (b, s, "a field this rule does not know is written and also read: its role in the search state is not classified")
         ctx.ob("R3", "field(%s)" % f, bad is None, ctx.where(bad[0], bad[1]["line"]) if bad else "",
                bad[2] if bad else "%d store(s), all allowed" % len(per_field[f]))
     # ---- R4 -------------------------------------------------------------
